@@ -21,4 +21,43 @@ CLAIMED['C08'] = dict(
          'The model of simulation_state_ops/dict_ops is hand-written and tied to /repo by correspondence on raw-op and step histories.'),
    note=COMMON_NOTE + ' h3_to_parent is an arbitrary function in the theorem; geofence constant True.',
    technique='Coq proof: inductive invariant over all operations + frame theorem; differential correspondence incl. raw-op histories')
+
+def _c(pid, text, technique, note=''):
+    CLAIMED[pid] = dict(text=text, note=COMMON_NOTE + (' ' + note if note else ''), technique=technique)
+
+_c('C02', 'Proved for all inputs over the counters regenerated from charger_state.py/base.py: each operation moves one counter by exactly one, refuses instead of leaving [0,total], '
+          'keeps the bounds invariant, touches nothing else. PARTIAL: the equation installed-free = #vehicles charging there over whole histories is decided by correspondence '
+          '(contention profile: many vehicles, one plug/stall, re-instruction from every activity) + the counts monitor, not yet by a theorem.',
+   'Coq proof over translated counter kernels + differential correspondence + invariant monitor')
+_c('C03', 'Proved on the step model: no instruction diverts a vehicle with passengers (whole state unchanged); pickup = fare credited once + request removed + one event, impossible for a '
+          'non-waiting request; cancel removes only a timed-out waiting request with one event. PARTIAL: the per-request ledger over whole histories is decided by correspondence + ledger monitor.',
+   'Coq proof of per-transition lemmas on the hand-written step model + correspondence + ledger monitor', 'No pooling; unique request ids.')
+_c('C05', 'Proved: a charge step derives one (kwh, price = kwh x tariff) and applies it to vehicle, station and event in one update; payment conserved; gained = level rise (kernels regenerated). '
+          'PARTIAL: sums over whole histories decided by correspondence + ledger monitor.',
+   'Coq proof over step model + translated payment/energy kernels; correspondence; ledger monitor')
+_c('C07', 'Proved: every accepted enter() (instruction of any controller or default transition) has established the location facts (vehicle at station/base; route starts at vehicle and ends at '
+          'target); trips start at the origin and end at the destination. PARTIAL: lift to the state invariant over histories decided by correspondence + location monitor.',
+   'Coq proof of enter-guard theorem on the step model + correspondence + monitor')
+_c('C09', 'Proved: transition yields a new state iff exit AND enter succeed, otherwise the whole Sim record is kept; a refused instruction is as if absent from the batch; the instruction taking part for a '
+          'vehicle is the last pushed, the driver having the final word (stack model). transition_previous_to_next is regenerated from the source each run.',
+   'Coq proof over translated transition kernel + step/stack model; correspondence; before/after deep-compare monitor')
+_c('C10', 'Proved: the regenerated membership test means public-or-shares-a-fleet; every accepted enter() has checked access for every entity the activity names (incl. the station behind a base). '
+          'PARTIAL: built-in dispatcher pairing decided by the dispatcher engine/monitor.',
+   'Coq proof over translated membership kernels + enter-guard theorem; correspondence with fleet profiles; monitor')
+_c('C15', 'Proved for any controller output and released rows: only tick changes the clock (frame theorem), a full step adds exactly dt, n steps add n*dt, run(a++b) = run b . run a. '
+          'The implementation side of composition (cursors, generators, reporter) is decided by split-run correspondence.',
+   'Coq proof (frame theorem + translated tick) + split-run differential correspondence')
+_c('C17', 'Proved: entering DispatchTrip assigns, leaving it by any instruction unassigns, running out of energy on the way releases the request (repaired code path). '
+          'PARTIAL: the state invariant over histories decided by correspondence + monitor.',
+   'Coq proof of transition lemmas over step model + translated assign/unassign kernels; correspondence; monitor')
+_c('C18', 'Proved: the update order is non-queued first then queued sorted by the injective key (enqueue_time, id); every vehicle is processed; of two queued vehicles the earlier is offered a freed plug first. '
+          'PARTIAL: the step from processing order to "never left waiting" (needs can_use) decided by correspondence + FIFO monitor.',
+   'Coq proof about the processing order (sortedness, permutation) + correspondence + FIFO trace monitor')
+_c('C19', 'Proved: each state-changing primitive files exactly one event carrying exactly the change (move distance = odometer growth, charge energy = level rise, price = amount moved, pickup stamped at the '
+          'step start). PARTIAL: whole-run sums, station load, summary counts and the file round-trip decided by the log engine + monitors.',
+   'Coq proof of event/state lemmas on the step model + correspondence on event multisets + monitors')
+_c('C20', 'Proved: regenerated time_in_range is start-inclusive/end-exclusive with wrap-around and empty when start=end; time of day periodic; a driver update sets availability to the schedule verdict at the '
+          'step start and files an event exactly on a flip. PARTIAL: dispatcher never assigning off-shift drivers decided by the dispatcher engine.',
+   'Coq proof over translated time_in_range + driver-update lemma; correspondence; shift monitor')
+
 NOT_CLAIMED = {}
